@@ -461,6 +461,7 @@ pub struct Section<'a, T> {
 impl Report {
     pub fn new(cfg: RunCfg, level: &'static str) -> Report {
         install_panic_hook();
+        DEEP.store(cfg.tier == Tier::Thorough, Ordering::Relaxed);
         let known = load_known(&cfg.root, &cfg.prop);
         let budget = cfg.budget_s;
         // watchdog: a hang is "inconclusive" (exit 2), never a violation
@@ -1090,6 +1091,18 @@ impl Report {
             std::process::exit(1);
         }
         std::process::exit(0);
+    }
+}
+
+/// Thorough tier: generators may draw longer histories / larger structures (read by strategy fns).
+pub static DEEP: AtomicBool = AtomicBool::new(false);
+
+/// `shallow` in the quick tier; in the thorough tier half of the cases use `deep` instead.
+pub fn depth(shallow: usize, deep: usize) -> usize {
+    if DEEP.load(Ordering::Relaxed) {
+        deep
+    } else {
+        shallow
     }
 }
 
